@@ -1,7 +1,7 @@
 import KyupyVerif.Proofs.SubstStruct4
 /-! Helper lemmas for C10 (`substitute_sem`), structural part 5: the certificate `SubstCert` for the circuit that
-`substituteCore` builds when a designated cell exists, it is not a port, no connected input is ignored and every output
-is connected — in particular this circuit is well-formed. -/
+`substituteCore` builds when a designated cell exists, it is not a port and no connected input is ignored
+(outputs may be unconnected: this is the circuit before dangling logic is removed) — in particular this circuit is well-formed. -/
 namespace KV.Transform
 open KV
 
@@ -30,7 +30,6 @@ theorem substituteCore_cert (h : NNet) (c : Nat) (m : NNet) (sh : Shape) (dn : N
     (hdn : dn ∉ m.net.io) (hnd : m.net.io.Nodup) (hps : ∀ p ∈ m.net.io, isSeqKind (m.net.node p).kind = false)
     (hpf : ∀ p ∈ m.net.io, 0 < (m.net.node p).ins.length → 0 < (m.net.node p).outs.length → (m.net.node p).isFork = true)
     (hni : NoIgnored m (sh.inPorts.zip (padTo (h.net.node c).ins sh.inPorts.length)))
-    (hlen : (h.net.node c).outs.length = sh.outLines.length) (hall : (h.net.node c).outs.all (·.isSome) = true)
     (h5 : NNet) (map : Array (Option Nat)) (dang : List (Option Nat)) (he : substituteCore h c m = some (h5, map, dang)) :
     SubstCert h c m sh dn map h5 := by
   obtain ⟨h2, net4, ren, net5, hil, hol, hfold, hci, hco, e⟩ := substituteCore_inv h c m sh hs h5 map dang he
@@ -105,7 +104,7 @@ theorem substituteCore_cert (h : NNet) (c : Nat) (m : NNet) (sh : Shape) (dn : N
   have pre : SubstPre h c m sh dn map h5 := by
     refine
       { hwf := hw, mwf := mw, hc := hc, hio := hio, shape := hs, des := hd, dnNotPort := hdn, ioNodup := hnd,
-        portNotSeq := hps, portFork := hpf, insLen := hil, noIgn := ?_, outsAll := ?_,
+        portNotSeq := hps, portFork := hpf, insLen := hil, noIgn := ?_,
         nsize := by rw [hN5]; exact iv.nsize, frameNode := fr.node, io' := po.2.trans iv.io, keyFrame := ?_,
         mapM := ?_, mapGe := hmge, mapLt := by rw [hN5]; exact iv.mapLt, mapInj := iv.mapInj, mapDom := ?_,
         mapDn := iv.mapDn, kind' := ?_, lsize := by subst e; exact hsz5.trans hL3,
@@ -115,13 +114,6 @@ theorem substituteCore_cert (h : NNet) (c : Nat) (m : NNet) (sh : Shape) (dn : N
         mem_zip_of_getElem? hinn (padTo_getElem? _ _ k ll hk)
       have := hni (inn, some ll) hmem rfl
       simpa using this
-    · intro k il hk
-      have hklt : k < (h.net.node c).outs.length := by
-        rw [hlen]; exact (List.getElem?_eq_some_iff.mp hk).1
-      have hsome := List.all_eq_true.mp hall _ (List.getElem_mem hklt)
-      cases ho : (h.net.node c).outs[k] with
-      | none => rw [ho] at hsome; exact absurd hsome (by simp)
-      | some ll => exact ⟨ll, by simp [instOut, List.getD_eq_getElem?_getD, List.getElem?_eq_getElem hklt, ho]⟩
     · intro d hd'
       show (h5.names.getD d "", (h5.net.node d).isFork) = (h.names.getD d "", (h.net.node d).isFork)
       rw [hnames5, iv.nameHost d hd']
